@@ -73,7 +73,7 @@ fn the_genesis() -> Block {
 		.clone()
 }
 
-fn init_chain(dir: &str) -> Chain {
+pub fn init_chain(dir: &str) -> Chain {
 	Chain::init(
 		dir.to_string(),
 		Arc::new(NoopAdapter {}),
@@ -85,22 +85,22 @@ fn init_chain(dir: &str) -> Chain {
 	.expect("chain init")
 }
 
-struct Blk {
-	parent: u64,
-	height: u64,
-	diff: u64,
-	ins: Vec<u64>,
-	outs: Vec<u64>,
-	lock: u64,
-	flag: String,
+pub struct Blk {
+	pub parent: u64,
+	pub height: u64,
+	pub diff: u64,
+	pub ins: Vec<u64>,
+	pub outs: Vec<u64>,
+	pub lock: u64,
+	pub flag: String,
 }
 
-struct World {
-	tree: BTreeMap<u64, Blk>,
-	pool: HashMap<u64, u64>,
-	blocks: HashMap<u64, Block>,
-	id_of: HashMap<Hash, u64>,
-	commit_of: BTreeMap<u64, Commitment>, // model commit id -> real commitment
+pub struct World {
+	pub tree: BTreeMap<u64, Blk>,
+	pub pool: HashMap<u64, u64>,
+	pub blocks: HashMap<u64, Block>,
+	pub id_of: HashMap<Hash, u64>,
+	pub commit_of: BTreeMap<u64, Commitment>, // model commit id -> real commitment
 }
 
 fn parse_tree(beh: &Value) -> (BTreeMap<u64, Blk>, HashMap<u64, u64>) {
@@ -208,7 +208,7 @@ fn flip(h: &Hash) -> Hash {
 
 /// Build every block of the tree with honest roots computed on a builder chain that receives
 /// all blocks in id (= topological) order; apply the corruption flags afterwards.
-fn build_world(beh: &Value, dir: &str) -> World {
+pub fn build_world(beh: &Value, dir: &str) -> World {
 	let (tree, pool) = parse_tree(beh);
 	let builder = init_chain(&format!("{}/builder", dir));
 	let g = the_genesis();
@@ -278,7 +278,7 @@ fn build_world(beh: &Value, dir: &str) -> World {
 	}
 }
 
-fn class_of(r: &Result<Option<grin_chain::Tip>, ChainError>) -> String {
+pub fn class_of(r: &Result<Option<grin_chain::Tip>, ChainError>) -> String {
 	match r {
 		Ok(Some(_)) => "ok_head".into(),
 		Ok(None) => "ok_fork".into(),
